@@ -45,6 +45,11 @@ CLAIMED.update({
    note="Partial as a proof: the end-to-end round trip decode_unstructured(encode v) = v is not yet a Coq theorem (it is checked by the extracted reader on real output); the proved part is the validity and exact decoding of each encoded-word plus base64. Trusted: as C02, plus the RFC readers written from the RFCs. No axioms.",
    technique="Coq proof (encoded-word validity, base64) + extracted RFC readers applied to the implementation's output",
    design="8/C12"),
+ "C10": dict(
+   text="Coq theorems about executable models of Body::new / new_with_encoding, the in-place LF->CRLF conversion, email-encoding's chooser and base64 wrapping, and quoted_printable 0.5's encoder (with its look-ahead runs, soft-break insertion at the backup position and trailing-blank rule): C10_lossless and C10_lossless_requested (for EVERY byte string, binary or text, automatic or any accepted requested encoding: decoding the emitted octets with RFC 2045 decoders written from the RFC gives the content - the bytes, or the text with lone LF turned into CRLF), C10_qp_roundtrip, C10_b64_roundtrip, C10_crlf (+ idempotence), C10_choice (automatic choice is 7bit/QP/base64), C10_refusal (a refusal hands the content back; only 7bit/8bit are refused). Tied to /repo by an exhaustive sweep over a 9-byte alphabet (String and Vec<u8>, 6 requested encodings), line lengths around 76 and 998, escape ratios around 1/3, 64 KiB random bytes - model vs implementation byte for byte - and by applying the extracted decoders and line-rule checkers to the implementation's output.",
+   note="Trusted: kernel, extraction, drivers, transcription of body.rs, chooser.rs, body/base64.rs and quoted_printable::_encode (text mode, limit 76). The encoding-rule clauses (lines <= 76 / <= 998, ASCII, no bare trailing blank) are judged on the implementation's output by the extracted checkers, not proved. 7bit well-formedness is false for the class F16 (NUL, bare CR/LF), a known finding. No axioms.",
+   technique="Coq proof (transducer/decoder invariant for quoted-printable, chunk lemma for base64, index-insertion lemma for CRLF) + exhaustive differential correspondence",
+   design="8/C10"),
 })
 NOT_YET = {}
 props = [json.loads(l) for l in open(os.path.join(V, "properties.jsonl"))]
